@@ -89,7 +89,7 @@ theorem tExp : (e : Exp) → (env : Env) → okExp e = true → bExp true env e 
   | .fls _, env, _ => by simp [bExp]
   | .vararg _, env, _ => by simp [bExp]
   | .int _ _, env, _ => by simp [bExp]
-  | .flt _, env, _ => by simp [bExp]
+  | .flt _ _, env, _ => by simp [bExp]
   | .str _ _, env, _ => by simp [bExp]
   | .name _ _, env, _ => by simp [bExp]
   | .bad _, env, _ => by simp [bExp]
